@@ -113,132 +113,85 @@ Definition same_set (a b : list (tbl * access)) : bool :=
 Lemma required_is_flows : forall p, same_set (required p) (flows (program p)) = true.
 Proof. apply forall_paths. vm_compute. reflexivity. Qed.
 
-Lemma required_is_flows_fixed : forall p, same_set (required p) (flows (program_fixed p)) = true.
+(** every path of the current code is guarded, checks before it writes, and swallows no refusal *)
+Lemma all_guarded : forall p, guardedb [] (program p) = true.
 Proof. apply forall_paths. vm_compute. reflexivity. Qed.
 
-(** exactly the listed paths are unguarded *)
-Lemma guarded_iff_not_known : forall p, guardedb [] (program p) = negb (unguarded_known p).
-Proof.
-  intro p. apply Bool.eqb_prop.
-  apply (forall_paths (fun p => Bool.eqb (guardedb [] (program p)) (negb (unguarded_known p)))). vm_compute. reflexivity.
-Qed.
-
-Lemma atomic_iff_not_known : forall p, atomicb (program p) = negb (partial_known p).
-Proof.
-  intro p. apply Bool.eqb_prop.
-  apply (forall_paths (fun p => Bool.eqb (atomicb (program p)) (negb (partial_known p)))). vm_compute. reflexivity.
-Qed.
-
-Lemma loud_iff_not_known : forall p, loudb (program p) = negb (silent_known p).
-Proof.
-  intro p. apply Bool.eqb_prop.
-  apply (forall_paths (fun p => Bool.eqb (loudb (program p)) (negb (silent_known p)))). vm_compute. reflexivity.
-Qed.
-
-Lemma fixed_all_good : forall p,
-  guardedb [] (program_fixed p) && atomicb (program_fixed p) && loudb (program_fixed p) = true.
+Lemma all_atomic : forall p, atomicb (program p) = true.
 Proof. apply forall_paths. vm_compute. reflexivity. Qed.
 
-Lemma fixed_only_known : forall p, defect_of p = None -> program_fixed p = program p.
-Proof. destruct p; cbn; intro H; try reflexivity; discriminate. Qed.
-
-(** C26 paths_complete (true version): on every path outside the listed classes, whatever the role holds,
-    every row read is of a table it holds SELECT on and every row written of a table it holds the matching
-    privilege on *)
-Theorem paths_complete : forall p, unguarded_known p = false ->
-  forall held e, In e (snd (run held (program p))) -> permitted held e = true.
-Proof.
-  intros p Hk held e He. eapply (guarded_sound held (program p) []); [|intros t a F; destruct F|exact He].
-  rewrite guarded_iff_not_known, Hk. reflexivity.
-Qed.
-
-(** the full statement is false of the code: the five listed classes, each with a role that holds everything
-    the path checks and still touches data it has no privilege on *)
-Definition witness_held (p : path) : tbl -> access -> bool :=
-  held_of (match p with
-           | P_on_duplicate_key_update | P_replace_into | P_insert_or_replace => [(TU, AIns)]
-           | _ => [(TM, ASel); (TT, AIns)]
-           end).
-
-Definition leaks (p : path) : bool :=
-  existsb (fun e => negb (permitted (witness_held p) e)) (snd (run (witness_held p) (program p))) &&
-  match fst (run (witness_held p) (program p)) with OOk => true | ODenied => false end.
-
-Definition known_leaks (p : path) : bool := negb (unguarded_known p) || leaks p.
-
-Lemma known_leak : forall p, known_leaks p = true.
+Lemma all_loud : forall p, loudb (program p) = true.
 Proof. apply forall_paths. vm_compute. reflexivity. Qed.
 
-Theorem paths_complete_refuted : forall p, unguarded_known p = true ->
-  exists held e, In e (snd (run held (program p))) /\ permitted held e = false /\ fst (run held (program p)) = OOk.
+(** C26 paths_complete: on every listed path, whatever the role holds, every row read is of a table it holds
+    SELECT on and every row written of a table it holds the matching privilege on *)
+Theorem paths_complete : forall p held e, In e (snd (run held (program p))) -> permitted held e = true.
 Proof.
-  intros p Hk. pose proof (known_leak p) as H. unfold known_leaks in H. rewrite Hk in H. cbn [negb orb] in H.
-  unfold leaks in H. apply andb_true_iff in H as [H1 H2].
-  apply existsb_exists in H1 as [e [He Hp]]. exists (witness_held p), e. split; [exact He|]. split.
-  - apply negb_true_iff in Hp. exact Hp.
-  - destruct (fst (run (witness_held p) (program p))); [reflexivity | discriminate].
+  intros p held e He. eapply (guarded_sound held (program p) []); [apply all_guarded|intros t a F; destruct F|exact He].
 Qed.
 
-(** "otherwise it fails": lacking a required privilege the statement is refused - on every path that is
-    neither unguarded nor silent *)
-Theorem paths_deny : forall p, unguarded_known p = false -> silent_known p = false ->
-  forall held t a, In (t, a) (required p) -> held t a = false -> fst (run held (program p)) = ODenied.
+(** "otherwise it fails": lacking a required privilege the statement is refused *)
+Theorem paths_deny : forall p held t a,
+  In (t, a) (required p) -> held t a = false -> fst (run held (program p)) = ODenied.
 Proof.
-  intros p Hk Hs held t a Hr Hh. eapply (lacking_is_denied held (program p) [] t a).
-  - rewrite guarded_iff_not_known, Hk. reflexivity.
-  - rewrite loud_iff_not_known, Hs. reflexivity.
+  intros p held t a Hr Hh. eapply (lacking_is_denied held (program p) [] t a).
+  - apply all_guarded.
+  - apply all_loud.
   - intros t' a' F. destruct F.
   - pose proof (required_is_flows p) as H. unfold same_set in H. apply andb_true_iff in H as [H _].
     rewrite forallb_forall in H. apply memp_In. apply H. exact Hr.
   - exact Hh.
 Qed.
 
-Theorem paths_deny_refuted : exists p held t a,
-  unguarded_known p = false /\ In (t, a) (required p) /\ held t a = false /\ fst (run held (program p)) = OOk.
+(** "and changes nothing": a refused statement has written nothing *)
+Theorem paths_denied_change_nothing : forall p held,
+  fst (run held (program p)) = ODenied -> filter is_change (snd (run held (program p))) = [].
+Proof. intros p held HD. apply denied_changes_nothing; [apply all_atomic | exact HD]. Qed.
+
+(** both together, per required privilege *)
+Theorem paths_lacking : forall p held t a,
+  In (t, a) (required p) -> held t a = false ->
+  fst (run held (program p)) = ODenied /\ filter is_change (snd (run held (program p))) = [].
 Proof.
-  exists P_window_partition_subquery, (held_of [(TM, ASel)]), TS, ASel. vm_compute. repeat split. right. left. reflexivity.
+  intros p held t a Hr Hh. assert (HD := paths_deny p held t a Hr Hh).
+  split; [exact HD | apply paths_denied_change_nothing; exact HD].
 Qed.
 
-(** "and changes nothing": on every path outside the partial-truncate class a refused statement has written nothing *)
-Theorem paths_denied_change_nothing : forall p, partial_known p = false ->
-  forall held, fst (run held (program p)) = ODenied -> filter is_change (snd (run held (program p))) = [].
-Proof.
-  intros p Hk held HD. apply denied_changes_nothing; [|exact HD]. rewrite atomic_iff_not_known, Hk. reflexivity.
-Qed.
+(** ** the table before the C26 fixes: which paths were broken, and how *)
+Definition before_unguarded : list path :=
+  filter (fun p => negb (guardedb [] (program_before p))) all_paths.
+Definition before_silent : list path := filter (fun p => negb (loudb (program_before p))) all_paths.
+Definition before_partial : list path := filter (fun p => negb (atomicb (program_before p))) all_paths.
 
-Theorem paths_denied_change_nothing_refuted : exists p held,
-  fst (run held (program p)) = ODenied /\ filter is_change (snd (run held (program p))) <> [].
-Proof.
-  exists P_truncate_multi_cascade, (held_of [(TU, ADel); (TP, ADel)]). vm_compute. split; [reflexivity | discriminate].
-Qed.
+Lemma before_defects :
+  before_unguarded =
+    [P_count_star_order_by; P_count_star_limit; P_count_star_union_arm; P_count_star_with_cte; P_count_star_scalar_limit;
+     P_in_index_order_by; P_in_index_group_by; P_in_index_partition_by; P_insert_select_bulk;
+     P_on_duplicate_key_update; P_replace_into; P_insert_or_replace] /\
+  before_silent = [P_window_partition_subquery; P_delete_where_subquery; P_delete_where_exists] /\
+  before_partial = [P_truncate_multi_cascade].
+Proof. vm_compute. repeat split. Qed.
 
-(** after the proposed repairs every path is guarded, loud and atomic: the property holds of the whole table *)
-Theorem paths_fixed_complete : forall p held,
-  (forall e, In e (snd (run held (program_fixed p))) -> permitted held e = true) /\
-  (forall t a, In (t, a) (required p) -> held t a = false ->
-     fst (run held (program_fixed p)) = ODenied /\ filter is_change (snd (run held (program_fixed p))) = []).
-Proof.
-  intros p held. pose proof (fixed_all_good p) as H.
-  apply andb_true_iff in H as [H HL]. apply andb_true_iff in H as [HG HA]. split.
-  - intros e He. eapply (guarded_sound held (program_fixed p) []); [exact HG | intros t a F; destruct F | exact He].
-  - intros t a Hr Hh.
-    assert (HD : fst (run held (program_fixed p)) = ODenied).
-    { eapply (lacking_is_denied held (program_fixed p) [] t a); try eassumption.
-      - intros t' a' F. destruct F.
-      - pose proof (required_is_flows_fixed p) as H. unfold same_set in H. apply andb_true_iff in H as [H _].
-        rewrite forallb_forall in H. apply memp_In. apply H. exact Hr. }
-    split; [exact HD | apply denied_changes_nothing; assumption].
-Qed.
+(** the fixes changed nothing else *)
+Lemma program_unchanged_elsewhere : forall p,
+  In p before_unguarded \/ In p before_silent \/ In p before_partial \/ program p = program_before p.
+Proof. destruct p; vm_compute; tauto. Qed.
 
 (** examples: non-trivial instances of the hypotheses *)
-Example ex_guarded_path : unguarded_known P_insert_select_subquery = false /\
+Example ex_guarded_path :
   run (held_of [(TT, AIns); (TM, ASel)]) (program P_insert_select_subquery) = (ODenied, [ERead TM]).
-Proof. vm_compute. split; reflexivity. Qed.
-
-Example ex_bulk_leak :
-  run (held_of [(TT, AIns)]) (program P_insert_select_bulk) = (OOk, [ERead TS; EWrite TT AIns]).
 Proof. vm_compute. reflexivity. Qed.
 
-Example ex_partial_truncate :
-  run (held_of [(TU, ADel); (TP, ADel)]) (program P_truncate_multi_cascade) = (ODenied, [EWrite TU ADel]).
+Example ex_bulk_now_refused :
+  run (held_of [(TT, AIns)]) (program P_insert_select_bulk) = (ODenied, []) /\
+  run (held_of [(TT, AIns)]) (program_before P_insert_select_bulk) = (OOk, [ERead TS; EWrite TT AIns]).
+Proof. vm_compute. split; reflexivity. Qed.
+
+Example ex_truncate_now_atomic :
+  run (held_of [(TU, ADel); (TP, ADel)]) (program P_truncate_multi_cascade) = (ODenied, []) /\
+  run (held_of [(TU, ADel); (TP, ADel)]) (program_before P_truncate_multi_cascade) = (ODenied, [EWrite TU ADel]).
+Proof. vm_compute. split; reflexivity. Qed.
+
+Example ex_all_held :
+  run (held_of [(TU, AIns); (TU, ADel)]) (program P_replace_into) = (OOk, [EWrite TU ADel; EWrite TU AIns]).
 Proof. vm_compute. reflexivity. Qed.
